@@ -213,6 +213,19 @@ func runInBubble(t *testing.T, c *Case) (tr *Trace) {
 	return inner
 }
 
+// partFits: can this part's executor run the case? (replay of records that do not name their part)
+func partFits(p *part, c *Case) bool {
+	switch {
+	case c.Fcx != nil:
+		return p.enum != nil || (p.exec != nil && strings.HasPrefix(p.name, "fcx_") && p.name != "fcx_parallel")
+	case c.Par != nil:
+		return p.name == "fcx_parallel"
+	case c.Free:
+		return p.exec != nil && !strings.HasPrefix(p.name, "fcx_")
+	}
+	return p.exec == nil
+}
+
 func caseSample(c *Case) json.RawMessage {
 	cc := *c
 	if len(cc.Tape) > 24 {
@@ -364,6 +377,9 @@ func TestCheck(t *testing.T) {
 			}
 			if rf.Part != "" && rf.Part != p.name {
 				continue
+			}
+			if rf.Part == "" && !partFits(p, rf.Case) {
+				continue // (a hang record does not name its part: take the first part whose executor fits the case)
 			}
 			prop(nil, rf.Case)
 			for _, v := range st.Violations {
